@@ -25,6 +25,7 @@
 #include <cstring>
 #include <cstdlib>
 #endif
+#include <ISO_Fortran_binding.h>
 #include <sanitizer/asan_interface.h>
 
 static volatile int g_err;
@@ -235,7 +236,73 @@ int main(void)
             free(sc);
             box_free(&t); box_free(&s);
         }
+        else if (strcmp(tok[0], "aflow") == 0 && nt == 3) {
+            /* allocatable character result through a CFI descriptor (c_*_result_cfi_allocatable):
+               tok[2] is the text returned by the library (N = NULL pointer) */
+            Box s = box_parse(tok[2]);
+            int ns = (int) s.cap;
+            char *sc = NULL;
+            aflow_fn fn = NULL;
+            if (!s.null) { sc = (char *) malloc(ns + 1); memcpy(sc, s.p, ns); sc[ns] = 0; }
+            for (int i = 0; g_aflows[i].name; i++)
+                if (strcmp(g_aflows[i].name, tok[1]) == 0) fn = g_aflows[i].fn;
+            if (fn) {
+                CFI_SCALAR_DESC(cd, NULL, 0, CFI_attribute_allocatable)
+                fn(cd, sc, ns);
+                box_done(&s);
+                if (cd->base_addr == NULL) {
+                    strcpy(out, "ok f=unallocated");
+                } else {
+                    strcpy(out, "ok f=");
+                    put_bytes(out, (unsigned char *) cd->base_addr, cd->elem_len, 1);
+                    if (__sanitizer_get_allocated_size(cd->base_addr) < cd->elem_len) g_err |= 128;
+                    free(cd->base_addr);
+                }
+            } else {
+                strcpy(out, "bad-op");
+            }
+            free(sc);
+            box_free(&s);
+        }
 #ifdef __cplusplus
+        else if (strcmp(tok[0], "vflow") == 0 && nt == 6) {
+            /* vflow name <t> <size> <len> <s1;s2;..|~> : CHARACTER(len) t(size), library stores the strings */
+            Box t = box_parse(tok[2]);
+            long size = atol(tok[3]);
+            int len = atoi(tok[4]);
+            std::vector<std::string> outv;
+            std::vector<Box> keep;
+            if (strcmp(tok[5], "~") != 0) {
+                char *save = NULL;
+                static char copy[4096];
+                strcpy(copy, tok[5]);
+                for (char *q = strtok_r(copy, ";", &save); q; q = strtok_r(NULL, ";", &save)) {
+                    Box e = box_parse(q);
+                    outv.push_back(std::string(e.p, e.cap));
+                    box_done(&e); box_free(&e);
+                }
+            }
+            vflow_fn fn = NULL;
+            for (int i = 0; g_vflows[i].name; i++)
+                if (strcmp(g_vflows[i].name, tok[1]) == 0) fn = g_vflows[i].fn;
+            g_vseen_set = 0; g_vseen.clear();
+            if (fn) {
+                fn(t.p, size, len, outv);
+                box_done(&t);
+                strcpy(out, "ok seen=");
+                if (!g_vseen_set) strcat(out, "none");
+                else if (g_vseen.empty()) strcat(out, "~");
+                else for (size_t i = 0; i < g_vseen.size(); i++) {
+                    if (i) strcat(out, ";");
+                    put_bytes(out, (const unsigned char *) g_vseen[i].data(), g_vseen[i].size(), 0);
+                }
+                strcat(out, " f=");
+                put_bytes(out, (unsigned char *) t.p, t.cap, 0);
+            } else {
+                strcpy(out, "bad-op");
+            }
+            box_free(&t);
+        }
         else if ((strcmp(tok[0], "strtoarray") == 0 || strcmp(tok[0], "allocstring") == 0) && nt == 2) {
             Box c = box_parse(tok[1]);
             {
